@@ -97,17 +97,46 @@ def gen(repo) -> str:
         raise RegenError("%s: check_declared has no single `ident != <name>` exclusion (found %r)" % (rel, sorted(never)))
     ctx_name = sorted(never)[0]
 
-    # the reserved-name test of _Identifiers.__init__ intersects with locally_declared only
+    # the reserved-name test of _Identifiers.__init__: which collections are intersected with the reserved names
     init = find_func(ident_cls.body, "__init__", rel)
     checked = set()
     for n in ast.walk(init):
         if isinstance(n, ast.Call) and isinstance(n.func, ast.Attribute) and n.func.attr == "intersection" \
                 and isinstance(n.func.value, ast.Attribute) and n.func.value.attr == "reserved_names":
             for a in n.args:
-                if isinstance(a, ast.Attribute):
-                    checked.add(a.attr)
-    if not checked:
-        raise RegenError("%s: _Identifiers.__init__ has no reserved_names.intersection(<collection>) test" % rel)
+                for m in ast.walk(a):
+                    if isinstance(m, ast.Attribute) and isinstance(m.value, ast.Name) and m.value.id == "self":
+                        checked.add(m.attr)
+    known = {"locally_declared", "argument_declared", "closuredefs", "topleveldefs", "declared", "undeclared", "locally_assigned"}
+    if not checked or not checked <= known:
+        raise RegenError("%s: _Identifiers.__init__: reserved_names.intersection(...) over unknown collections %r" % (rel, sorted(checked)))
+
+    # Template.render_context: are the extra keyword arguments intersected with the reserved names?
+    rc = find_func(find_class(tt, "Template", rel_t).body, "render_context", rel_t)
+    kw_checked = False
+    for n in ast.walk(rc):
+        if isinstance(n, ast.Call) and isinstance(n.func, ast.Attribute) and n.func.attr == "intersection" \
+                and isinstance(n.func.value, ast.Attribute) and n.func.value.attr == "reserved_names" \
+                and len(n.args) == 1 and isinstance(n.args[0], ast.Name) and rc.args.kwarg is not None \
+                and n.args[0].id == rc.args.kwarg.arg:
+            kw_checked = True
+
+    # write_variable_declares: `for ident in sorted(to_write)`; write_render_callable: `sorted(...argument_declared)`
+    gen_cls = find_class(tree, "_GenerateRenderMethod", rel)
+    wvd = find_func(gen_cls.body, "write_variable_declares", rel)
+    loops = [n for n in ast.walk(wvd) if isinstance(n, ast.For) and isinstance(n.target, ast.Name) and n.target.id == "ident"
+             and not (isinstance(n.iter, ast.Call) and isinstance(n.iter.func, ast.Attribute))]
+    loops = [n for n in loops if "to_write" in ast.unparse(n.iter)]
+    if len(loops) != 1:
+        raise RegenError("%s: write_variable_declares has no single `for ident in <to_write>` loop" % rel)
+    it = loops[0].iter
+    declares_sorted = isinstance(it, ast.Call) and isinstance(it.func, ast.Name) and it.func.id == "sorted" \
+        and len(it.args) == 1 and isinstance(it.args[0], ast.Name) and it.args[0].id == "to_write" and not it.keywords
+    if not declares_sorted and not (isinstance(it, ast.Name) and it.id == "to_write"):
+        raise RegenError("%s: write_variable_declares iterates %s" % (rel, ast.unparse(it)))
+    wrc = find_func(gen_cls.body, "write_render_callable", rel)
+    ml_sorted = any(isinstance(n, ast.Call) and isinstance(n.func, ast.Name) and n.func.id == "sorted" and len(n.args) == 1
+                    and isinstance(n.args[0], ast.Attribute) and n.args[0].attr == "argument_declared" for n in ast.walk(wrc))
 
     out = [HEADER % "mako/codegen.py (TOPLEVEL_DECLARED, RESERVED_NAMES, _Identifiers), mako/template.py (Template.reserved_names)",
            "", "namespace MakoModel.Generated.Names", "",
@@ -121,5 +150,10 @@ def gen(repo) -> str:
            "def contextName : List Char := " + lean_str(ctx_name),
            "/-- collections of `_Identifiers` intersected with the reserved names in `__init__` (sorted) -/",
            "def reservedCheckedCollections : List String := [" + ", ".join('"%s"' % c for c in sorted(checked)) + "]",
+           "/-- `Template.render_context` intersects its `**kwargs` with the reserved names -/",
+           "def renderContextChecksKwargs : Bool := " + ("true" if kw_checked else "false"),
+           "/-- `write_variable_declares` iterates `sorted(to_write)`; `__M_locals` is built from `sorted(argument_declared)` -/",
+           "def declaresSorted : Bool := " + ("true" if declares_sorted else "false"),
+           "def mlocalsSorted : Bool := " + ("true" if ml_sorted else "false"),
            "", "end MakoModel.Generated.Names", ""]
     return "\n".join(out)
